@@ -208,6 +208,22 @@ type IsoMon struct {
 	AllowCIDInPayload bool
 }
 
+// usedCID reports whether the connection itself has used cid in a request
+// (a client may name the resource of another connection by its literal id).
+func (m *IsoMon) usedCID(c *Conn, cid string) bool {
+	for _, p := range c.Client.Pending {
+		if strings.Contains(p.Method, cid) {
+			return true
+		}
+	}
+	for _, r := range c.Client.Resp {
+		if r.Req != nil && strings.Contains(r.Req.Method, cid) {
+			return true
+		}
+	}
+	return false
+}
+
 func (m *IsoMon) Step(w *World, _ string) {
 	if m.seenFrames == nil {
 		m.seenFrames = make([]int, len(w.Conns))
@@ -221,8 +237,44 @@ func (m *IsoMon) Step(w *World, _ string) {
 				break
 			}
 			for _, cid := range cids {
-				if strings.Contains(string(f), cid) {
+				if strings.Contains(string(f), cid) && !m.usedCID(c, cid) {
 					w.Fail("C10", "cid-in-frame", "frame to %s contains the connection id of %s: %s", c.Label, w.label(cid), w.Canon(string(f)))
+				}
+			}
+			// an event named with a resource id this client does not hold, but which
+			// is the client-facing id under which another connection holds a resource
+			var ev struct {
+				Event *string `json:"event"`
+			}
+			specific := false // is the event named with a connection specific id?
+			if json.Unmarshal(f, &ev) == nil && ev.Event != nil {
+				specific = strings.Contains(*ev.Event, "{cid}")
+				for _, cid := range cids {
+					if strings.Contains(*ev.Event, cid) {
+						specific = true
+					}
+				}
+			}
+			if specific {
+				held := func(cl *RefClient) bool {
+					for rid := range cl.Store {
+						if strings.HasPrefix(*ev.Event, rid+".") {
+							return true
+						}
+					}
+					for _, p := range cl.Pending {
+						if p.RID != "" && strings.HasPrefix(*ev.Event, p.RID+".") {
+							return true
+						}
+					}
+					return false
+				}
+				if !held(c.Client) {
+					for j, o := range w.Conns {
+						if j != i && held(o.Client) {
+							w.Fail("C10", "rid-of-other-connection", "%s received event %s: it holds no such resource, %s holds it under that id", c.Label, w.Canon(*ev.Event), o.Label)
+						}
+					}
 				}
 			}
 		}
@@ -268,7 +320,7 @@ func (m *IsoMon) Step(w *World, _ string) {
 		f := parseReq(r.Payload)
 		// a cid inside the subject must be the requester's own
 		for _, cid := range cids {
-			if strings.Contains(r.Subject, cid) && f.CID != "" && cid != f.CID {
+			if strings.Contains(r.Subject, cid) && f.CID != "" && cid != f.CID && !(connByCID(w, f.CID) != nil && m.usedCID(connByCID(w, f.CID), cid)) {
 				w.Fail("C10", "foreign-cid-in-subject", "%s is made for %s but its subject names %s", r.CSubject, w.label(f.CID), w.label(cid))
 			}
 		}
